@@ -40,7 +40,9 @@ decoders for requests and for produce / metadata responses, and the property-lev
              KafkaStreamAbs machine inside KafkaWireTrace frames the received stream into size-prefixed requests
              and judges each one with ReqCheck / HdrCheck against the one supplied request it carries (found by
              content), each supplied request at most once; a trailing partial request only if the connection
-             was closed mid-write.
+             was closed mid-write.  Big-request scenarios (class stream-big): body sizes at 4 KiB / 16 KiB /
+             64 KiB +- 1 / 66000 / 80 KiB, the header write alone blocks, the request's deadline fires inside
+             that block; CRC and byte equality are evaluated in full by TLC (an 80 KB request costs ~3 s).
 The response bytes come from the small broker-side encoder below (written from the Kafka protocol guide,
 struct.pack only); they are decoded by the SPEC's decoder inside TLC and compared there with what the real
 code returned.  There is no Python oracle.
@@ -88,7 +90,11 @@ RULE = {'C15': 'records generated from VERIF_SEED: topic (ASCII, empty, non-ASCI
                'ids, reply and deadline at the same instant with every small interleaving); stream scenarios (send buffer '
                'of 64-1000 bytes, low-water mark 1-300, 1250-1700 byte and small produce requests and metadata '
                'requests from concurrent greenlets around a write that blocks part-way, space freed in pieces of '
-               '100-2000 bytes with 0-3 single callbacks between, resets mid-write); ~10 records per '
+               '100-2000 bytes with 0-3 single callbacks between, resets mid-write; plus 12 (thorough 72) scenarios around '
+               'one big request whose body is 4095-81920 bytes (4 KiB, 16 KiB, 64 KiB +- 1, 66000, 80 KiB), issued when '
+               'the buffer has less room than the 20 byte header needs / just enough for it, its own deadline firing '
+               'inside the blocked header write, inside the body write or before it is dequeued, requests queued '
+               'behind and issued after it); ~10 records per '
                'trace, one class per trace; every trace is non-trivial except header-only ones; distinct by '
                'canonical record list'}
 
@@ -471,7 +477,7 @@ def _stream_script(rng, i):
     req(api=3 if rng.random() < 0.2 else 0)
 
   def big():
-    return rng.choice([1400, 1450, 1500, 1700])
+    return rng.choice([1330, 1340, 1400, 1450, 1500, 1700, 1700, 4030, 4100])
 
   room = rng.choice([64, 256, 512, 700, 1000])
   lowat = rng.choice([1, 1, 1, 64, 300])
@@ -551,6 +557,89 @@ def _stream_script(rng, i):
   return {'mode': 'stream', 'cls': 'stream', 'ops': ops, 'lowat': lowat, 'tag0': rng.choice([1, 1, 254, 65534])}
 
 
+STREAM_BODY_TARGETS = [4095, 4096, 16383, 16384, 65535, 65536, 65537, 66000, 81920]
+
+
+def _stream_big_script(rng, i):
+  """Stream scenario around ONE big produce request whose body size sits at a plausible threshold (4 KiB, 16 KiB,
+  64 KiB +- 1, 66000, 80 KiB): the send buffer has fewer free bytes than the 20 byte request header needs when
+  the request starts (so that already the write of the header can block), the request's own deadline falls
+  inside that block (or before it is dequeued, or while its body is being written), other requests are queued
+  behind it and issued after it; then the peer reads in pieces."""
+  ops = []
+  st = {'n': 0}
+  topic = _name(rng, 'ascii') or [116]
+
+  def req(api=0, T=0, body=None):
+    st['n'] += 1
+    r = st['n']
+    marker = list(('s%d-' % r).encode())
+    if api != 0:
+      payloads = []
+    elif body is None:
+      payloads = [marker + _bytes(rng, rng.choice([0, 2, 9, 40]))]
+    else:
+      # body = acks 2 + timeout 4 + topics 4 + topic 2+len + partitions 4 + partition 4 + set size 4 + 26 per message
+      n = body - 50 - len(topic)
+      if rng.random() < 0.25:
+        payloads = [marker + _bytes(rng, n - 26 - 7 - len(marker)), _bytes(rng, 7)]
+      else:
+        payloads = [marker + _bytes(rng, n - len(marker))]
+    ops.append(['req', r, api, topic, rng.choice([0, 1, 7, 65536]), rng.choice([-1, 1, 1, 2]), payloads, T])
+
+  def small():
+    req(api=3 if rng.random() < 0.2 else 0)
+
+  target = STREAM_BODY_TARGETS[i % len(STREAM_BODY_TARGETS)]
+  shape = (i // len(STREAM_BODY_TARGETS)) % 4
+  for _ in range(rng.choice([0, 1, 2])):
+    small()
+  ops.append(['run'])
+  T = rng.choice([50, 100, 100, 200])
+  if shape in (0, 1):
+    # the header alone does not fit: the deadline fires while the send loop is blocked in its first bytes
+    ops.append(['room', rng.choice([0, 0, 3, 4, 10, 19])])
+    req(T=T, body=target)
+    if shape == 1:
+      small()
+      small()
+    ops.append(['run'])
+    ops.append(['adv', T + rng.choice([10, 60])])
+  elif shape == 2:
+    # the header fits, the body blocks; the deadline fires while the body is being written
+    ops.append(['room', rng.choice([20, 21, 64, 700])])
+    req(T=T, body=target)
+    small()
+    ops.append(['run'])
+    ops.append(['adv', T + 20])
+  else:
+    # queued behind a blocked small request: the deadline fires before the big one is dequeued (never written),
+    # a second big one without deadline follows
+    ops.append(['room', rng.choice([0, 5, 19])])
+    small()
+    req(T=T, body=target)
+    req(T=0, body=rng.choice([4096, 16384]) if target > 16384 else target)
+    ops.append(['run'])
+    ops.append(['adv', T + 20])
+  for _ in range(rng.choice([1, 2])):
+    small()
+  ops.append(['run'])
+  for d in ([rng.choice([1, 10, 16, 17, 20, 25])] if rng.random() < 0.7 else []) + [rng.choice([100, 5000, 20000])]:
+    ops.append(['drain', d])
+    ops.append(['step', rng.choice([1, 2, 3])])
+    if rng.random() < 0.4:
+      small()
+    ops.append(['run'])
+  ops.append(['drain', None])
+  ops.append(['run'])
+  ops.append(['answer'])
+  ops.append(['run'])
+  small()
+  ops.append(['run'])
+  return {'mode': 'stream', 'cls': 'stream-big', 'ops': ops, 'lowat': rng.choice([1, 1, 1, 16, 64]),
+          'tag0': rng.choice([1, 254, 65534])}
+
+
 def cases(prop, tier, seed):
   rng = random.Random(104729 * int(seed) + 15)
   mult = 1 if tier == 'quick' else 4       # thorough: 4x the traces, 3x the records per trace
@@ -594,6 +683,13 @@ def cases(prop, tier, seed):
   srng = random.Random(6151 * int(seed) + 1516)
   for c in range(60 * (1 if tier == 'quick' else 8)):
     out.append(_stream_script(srng, c))
+  # big requests (4 KiB - 80 KiB): spread over the list, one per validation batch (they dominate a batch's TLC time)
+  brng = random.Random(3571 * int(seed) + 1517)
+  nbig = 12 if tier == 'quick' else 72
+  big = [_stream_big_script(brng, c + (int(seed) % 3) * 4) for c in range(nbig)]
+  gap = max(1, len(out) // nbig)
+  for c, sc in enumerate(big):
+    out.insert(min(len(out), c * (gap + 1)), sc)
   return out
 
 
